@@ -690,15 +690,13 @@ def run_entry(case):
             trace = list(probes.TRACE)
             d = snapshot.diff(before, snapshot.snapshot([det, pipe]), ignore=("_numbytes", "_func"))
             if not valid:
-                if kcls == "truncated" and exc is not None and not trace:
-                    pass
                 if exc is None:
                     bad("invalid-accepted", f"override {key}={v!r} raised nothing; {len(trace)} model call(s) ran")
                 elif trace:
                     bad("rejected-after-running", f"override raised {type(exc).__name__} only after {len(trace)} model call(s)")
-                if exc is not None and not trace and _settings_diff(d):
+                if exc is not None and not trace and d:
                     bad("invalid-raised-but-changed", f"override raised {type(exc).__name__} but the caller's objects "
-                        f"changed: {snapshot.fmt(_settings_diff(d), 3)}")
+                        f"changed: {snapshot.fmt(d, 3)}")
                 outcome = ["invalid", type(exc).__name__ if exc else None, len(trace)]
             else:
                 want = literal(v)
@@ -740,12 +738,6 @@ def run_entry(case):
         shutil.rmtree(tmp, ignore_errors=True)
     return {"viol": viol, "sig": cfgx.sig([ep, kind, kcls, key.split(".")[0], outcome, case.get("exec"), case.get("mode")]),
             "nontrivial": True, "n": 1, "outcome": outcome}
-
-
-def _settings_diff(d):
-    """structural differences that are not bucket contents of a detector that ran (override runs on the caller's
-    objects by design): only used when no model ran, so everything counts"""
-    return d
 
 
 def _expected_arguments():
@@ -938,9 +930,11 @@ def coverage(tier, seed, agg):
         "transitions": c.get("transitions", 0),
         "traces_validated_against_impl": c.get("transitions", 0),
         "exhaustive": True,
-        "bound": "operation sequences up to the length given in `explored` per detector type (length 1: full alphabet; "
-                 "longer: prefixes = one (thorough: two) state-changing assignment per valid key, last operation over "
-                 "all keys x 4 values)",
+        "bound": "operation sequences up to the length given in `explored` per detector type. Length 1: the full alphabet "
+                 "(has/get/set x all keys x 17 values). Length 2: first operation = a state-changing assignment to each valid "
+                 "key (quick: 1 value, thorough: 2 values, plus a bool for enabled flags), second operation = has/get/set x all "
+                 "keys x 4 values. Length 3 (thorough): two such assignments to different keys, third operation = "
+                 "has/get/set(2 values) on the two touched keys and every key derived from them + set on every other valid key",
         "explored": s.get("explored", []),
         "entry_point_cases": c.get("entry_cases", 0),
         "distinct_entry_outcomes": len(s.get("entry_sigs", [])),
